@@ -12,6 +12,7 @@ import itertools
 
 import numpy as np
 import z3
+from harness import pipeline as PP
 
 from symx import loader
 from symx.core import Sym, Ctx, symarray, qval, is_nan
@@ -24,7 +25,7 @@ OUTSIDE = ["the value of int(seconds // dt) for lengths that are not exactly rep
            "LTA = 0 (division by zero: degenerate path)", "more than 3 windows / 6 samples"]
 BOUNDS = {"quick": {"windows": "1-3", "samples": "4-6", "component_subsets": 7, "chunks": "2-3"},
           "thorough": {"windows": "1-3", "samples": "4-9", "component_subsets": 7, "chunks": "2-4"}}
-INSTANCE_TIMEOUT = {"quick": 230, "thorough": 1500}
+INSTANCE_TIMEOUT = {"quick": 230, "thorough": 700}
 DT = 0.5
 COMPS = ("ns", "ew", "vt")
 SUBSETS = [c for r in (1, 2, 3) for c in itertools.combinations(COMPS, r)]
@@ -51,6 +52,7 @@ def instances(tier):
     # LTA length that is not a whole number of STA blocks, and an LTA shorter than two STA blocks
     out.append({"name": "stalta_n6_lta_not_multiple", "func": "run_stalta", "kwargs": {"comps": ["ns"], "nwin": 1, "n": 6, "sta": 1.0, "lta": 1.5, "attach": "none"}})
     out.append({"name": "stalta_n6_sta3_lta4", "func": "run_stalta", "kwargs": {"comps": ["ew"], "nwin": 1, "n": 6, "sta": 1.5, "lta": 2.0, "attach": "none"}})
+    out.append({"name": "stalta_n6_lta_shorter_than_sta", "func": "run_stalta", "kwargs": {"comps": ["ns"], "nwin": 1, "n": 6, "sta": 1.0, "lta": 0.5, "attach": "none"}})
     out.append({"name": "stalta_n6_lta5", "func": "run_stalta", "kwargs": {"comps": ["vt"], "nwin": 1, "n": 6, "sta": 1.0, "lta": 2.5, "attach": "none"}})
     out.append({"name": "stalta_n6_three_chunks", "func": "run_stalta", "kwargs": {"comps": ["vt"], "nwin": 1, "n": 6, "sta": 1.0, "lta": 2.0, "attach": "none"}})
     if tier == "thorough":
@@ -92,14 +94,14 @@ def attach_obj(kind, nwin):
         return None, []
 
     def mkh():
-        h = HT.__new__(HT)
+        h = PP.shell_traditional(HT)
         h.valid_window_boolean_mask = np.zeros(nwin, dtype=bool)
         h.valid_peak_boolean_mask = np.zeros(nwin, dtype=bool)
         return h
     if kind == "traditional":
         h = mkh()
         return h, [h]
-    a = HA.__new__(HA)
+    a = PP.shell_azimuthal(HA, HT)
     a.hvsrs = [mkh(), mkh()]
     return a, a.hvsrs
 
